@@ -186,7 +186,8 @@ impl Lin {
             let dropped_allow = if self.class == RankClass::ClearFull { 0.0 } else { (self.eps + self.delta) * rn * (self.m as f64).sqrt() };
             let ref_allow = g_ref.as_ref().map(|g| 4.0 * norm2(g.col(col))).unwrap_or(0.0);
             // absolute slack for quantities in the subnormal range of the scalar type under test
-            let slack = smax * (self.n as f64) * self.tiny * (1.0 + smax);
+            let csum: f64 = c.col(col).iter().map(|v| v.abs()).sum();
+            let slack = smax * (self.n as f64) * self.tiny * (1.0 + smax + self.ut * csum) + (self.n as f64) * self.tiny * self.ut * rn;
             let bound = (k * self.ut * smax * (bn + smax * cn) + dropped_allow + slack).max(ref_allow);
             if !(gn <= bound) {
                 return Err(Fail::new(
@@ -290,7 +291,10 @@ impl Lin {
             for i in 0..self.n {
                 let want = self.b.at(i, col) - ac.at(i, col);
                 let got = res[i + col * self.n];
-                let bound = kc * self.ut * (self.b.at(i, col).abs() + abs_ac.at(i, col)) + kc * self.tiny;
+                // W∘Phi is rounded to T by the code: entries in the subnormal range carry an absolute
+                // error of one subnormal spacing (tiny·u), which the coefficients amplify
+                let csum: f64 = (0..self.m).map(|j| c.at(j, col).abs()).sum();
+                let bound = kc * self.ut * (self.b.at(i, col).abs() + abs_ac.at(i, col)) + kc * self.tiny * (1.0 + self.ut * csum);
                 if !((got - want).abs() <= bound) {
                     return Err(Fail::new(
                         "c02.residual_identity",
